@@ -1978,4 +1978,12 @@ def escalate(rng, focus, tier):
     for _ in range(n):
         cases.append(g_botmsg(rng))
     cases = gen_control(rng, n, "thorough" if tier == "thorough" else "quick") + gen_quote(rng, n // 2) + cases
+    if focus and focus.get("task") in ("v2_value", "value"):
+        # a broken guard / wrapper correspondence: the differing completion and the literal grammar at every value-generation call
+        for mode, turns, script, pos, msgpos, fb in value_bases():
+            resp = list(script)
+            for p in (msgpos if mode == "v2_value2" else [pos]):
+                resp[p] = focus["s"]
+            cases.insert(0, {"kind": "e2e", "mode": mode, "turns": turns, "llm": resp, "fallback": fb, "pos": [pos], "msgpos": msgpos, "value": True})
+        cases = cases[: len(value_bases())] + gen_value_e2e(rng, "thorough" if tier == "thorough" else "quick") + cases[len(value_bases()):]
     return cases
